@@ -60,17 +60,30 @@ fn lerp_vec<D: Dom, V: VecN<D, N>, const N: usize>(rep: &mut Report) {
 }
 fn lerp_other<T: Tier>(rep: &mut Report) {
     let ts: [R; 5] = [(0, 1), (1, 1), (1, 2), (-1, 1), (3, 1)];
-    let nb = 3;
+    // bases 3..5: the second operand negated (negative dot product: lerp, unlike nlerp, never flips), 6: b = -a, 7: b = a
+    let nb = 8;
     rep.cases(
         "lerp/Quaternion+Matrix2..4",
         T::NAME,
-        "3 generic bases (a,b) x 5 amounts; Quaternion, Matrix2, Matrix3, Matrix4",
+        "8 bases (a,b): 3 generic, the same with b negated, b = -a, b = a; x 5 amounts; Quaternion, Matrix2, Matrix3, Matrix4",
         nb * ts.len(),
         Guard::states(15).distinct(10),
         |i, ctx| {
             let (v, ti) = (i / ts.len(), i % ts.len());
             let t: T = rq(ts[ti]);
-            let g = alphabet::generic(32, v);
+            let mut g = alphabet::generic(32, v % 3);
+            if (3..6).contains(&v) {
+                for k in [4usize, 5, 6, 7, 9, 10, 11, 12, 13, 14, 15, 16, 17, 18, 19, 20, 21, 22, 23, 24, 25, 26, 27, 28, 29, 30, 31] {
+                    g[k] = (-g[k].0, g[k].1);
+                }
+            } else if v >= 6 {
+                // second operand = +-first operand, for each of the slices used below
+                let sg = if v == 6 { -1 } else { 1 };
+                let h = g.clone();
+                for k in 0..4 { g[4 + k] = (sg * h[k].0, h[k].1); }
+                for k in 0..9 { g[9 + k] = (sg * h[k].0, h[k].1); }
+                for k in 0..16 { g[16 + k] = (sg * h[k].0, h[k].1); }
+            }
             ctx.describe(|| format!("base {v} t={:?}", t));
             ctx.out(&(v, ti));
             let mt = t.lift();
@@ -179,7 +192,7 @@ fn sphere<T: Tier + Dom<M = Sh>>(rep: &mut Report) {
     let axes = alphabet::uv3(false);
     // (cos theta, sin theta) of the constructed pairs: bracketing the 0.9995 threshold, and arcs so short that the dot
     // product rounds to 1 in f32 (theta < 2.4e-4) or even in f64 (theta < 1.5e-8) although b is not a
-    let mut cosines: Vec<(f64, f64)> = [0.96, 0.99, 0.9990, 0.9994, 0.9996, 0.99999, 1.0, -0.9994, -0.9996, -1.0].iter().map(|&c: &f64| (c, (1.0 - c * c).max(0.0).sqrt())).collect();
+    let mut cosines: Vec<(f64, f64)> = [0.96, 0.99, 0.9990, 0.9994, 0.99949, 0.99951, 0.9996, 0.99999, 1.0, -0.9994, -0.99949, -0.99951, -0.9996, -1.0].iter().map(|&c: &f64| (c, (1.0 - c * c).max(0.0).sqrt())).collect();
     for th in [3e-4f64, 1.5e-4, 5e-5, 1e-6, 1e-8] {
         cosines.push((th.cos(), th.sin()));
         cosines.push((-th.cos(), th.sin()));
@@ -188,7 +201,7 @@ fn sphere<T: Tier + Dom<M = Sh>>(rep: &mut Report) {
     let n_pairs = sub.len() * sub.len();
     let n_con = sub.len() * cosines.len();
     // nearly orthogonal pairs whose tiny dot product is computed exactly (one non-zero term)
-    let eps_list: [f64; 6] = [1e-17, -1e-17, 1e-10, -1e-10, 3e-8, -3e-8];
+    let eps_list: [f64; 7] = [0.0, 1e-17, -1e-17, 1e-10, -1e-10, 3e-8, -3e-8];
     let n_orth = 12 * eps_list.len();
     rep.cases(
         "sphere",
@@ -233,7 +246,10 @@ fn sphere<T: Tier + Dom<M = Sh>>(rep: &mut Report) {
             // "zero up to rounding": the dot product as the implementation evaluates it (in T) can differ from
             // the true one by a few u * (sum of |terms|); below that its sign is noise, above it is a fact
             let dsh = model::vdot::<Sh, 4>(a.map(|x| Sh::exact(x.f())), b.map(|x| Sh::exact(x.f())));
-            let ambiguous = dsh.v.abs() <= 8.0 * T::U * dsh.e;
+            // ... unless the dot product has at most one non-zero term: then every implementation computes it exactly,
+            // and a.b = 0 means "a.b >= 0": the arc towards +b
+            let terms = (0..4).filter(|&j| a[j].f() * b[j].f() != 0.0).count();
+            let ambiguous = terms > 1 && dsh.v.abs() <= 8.0 * T::U * dsh.e;
             let dot = if ambiguous { dot } else { dsh.v };
             let cands: Vec<[f64; 4]> = if ambiguous { vec![bf, scale4(bf, -1.0)] } else if dot < 0.0 { vec![scale4(bf, -1.0)] } else { vec![bf] };
             if dot == 0.0 || ambiguous {
